@@ -23,10 +23,10 @@ PLAN = dict(
                           "any exception in or cancellation of parallel_scan (C03-scan-split-ctor-hang, C03-scan-exception-leaks-body): parallel_scan is generated fault-free and not nested",
                           "a throwing comparator of parallel_sort is checked only for exit-by-exception, quiescence at exit and no terminate (no statement about the data)",
                           "with two external threads the library's one-time initialisation is completed on thread 0 first (engine cannot model the __cxa_guard futex)"],
-    floor=dict(quick=800, thorough=35000),
+    floor=dict(quick=1300, thorough=35000),
     tiers=dict(
-        quick=[det("rel", H, "cs-rel", 16, 130, 4, tso=True, time_cap=30),
-               det("dbg", H, "cs-dbg", 16, 50, 4, tso=True, time_cap=25)] + WIT,
+        quick=[det("rel", H, "cs-rel", 16, 200, 4, tso=True, time_cap=30),
+               det("dbg", H, "cs-dbg", 16, 80, 4, tso=True, time_cap=25)] + WIT,
         thorough=[det("rel", H, "cs-rel", 16, 3000, 5, tso=True, time_cap=300),
                   det("dbg", H, "cs-dbg", 16, 1000, 5, tso=True, time_cap=150),
                   det("enum-conflict", H, "cs-rel", 16, 50, 2, tso=True, time_cap=90, enum="conflict", enum_cap=120),
